@@ -328,6 +328,31 @@ def run(ctx):
                  "the final gap fill always runs to the last sent number: a bounded request (EndSeqNo below the last sent number) is answered with a gap fill over "
                  "messages it did not ask to skip, and they are deleted from the journal", loc(tail_ops[0]) if tail_ops else loc(fn))
 
+    # the tail gap fill is sent only when it skips something: on every path to it its MsgSeqNum operand is known to be below its NewSeqNo operand
+    # (a SequenceReset N -> N is numbered with a number that was never sent, is journaled under it, and the next fresh message takes it again)
+    for n in tail_ops:
+        gnode = next((x for x in g.nodes if x.kind == "stmt" and x.ast is n), None)
+        new_names = {x.id for x in ast.walk(n.value) if isinstance(x, ast.Name)} - {"str", "int"}
+        blk = getattr(n, "_parent", None)
+        seq_names = set()
+        for fld in ("body", "orelse", "finalbody"):
+            lst = getattr(blk, fld, None)
+            if isinstance(lst, list) and n in lst:
+                for st in lst:
+                    if isinstance(st, ast.Assign) and isinstance(st.targets[0], ast.Subscript) and fo.tag(st.targets[0].slice) == "34":
+                        seq_names |= {x.id for x in ast.walk(st.value) if isinstance(x, ast.Name)} - {"str", "int"}
+        if gnode is None or len(new_names) != 1 or len(seq_names) != 1:
+            continue
+        lo_, hi_ = next(iter(seq_names)), next(iter(new_names))
+        fs = set()
+        for t, lab in g.guards(gnode.id, exc=False):
+            fs |= facts(t, lab == "true")
+        strict = any((a in (f"{lo_} < {hi_}", f"{hi_} > {lo_}", f"{lo_} != {hi_}", f"{hi_} != {lo_}") and tv)
+                     or (a in (f"{lo_} >= {hi_}", f"{hi_} <= {lo_}", f"{lo_} == {hi_}", f"{hi_} == {lo_}") and not tv) for a, tv in fs)
+        ctx.instance(R6, "_process_resend[tail gap fill only when numbers remain]", strict,
+                     f"the final gap fill (34={lo_}, 36={hi_}) is sent without `{lo_} < {hi_}` being established: when the replay ended at the last sent number an empty "
+                     "SequenceReset N -> N goes out under a number that was never used, is journaled under it, and the next fresh message is numbered N again",
+                     loc(n))
     # the bound of the journal query: the request's EndSeqNo, and "everything" exactly when EndSeqNo is 0 (FIX: 0 = infinity).  Decided on the
     # definitions of the bound that reach the query: the field's own value must reach it (on the non-zero side), and a definition made under
     # the zero test that is not a small number must reach it too; `x or BIG` / a definition from the field inside one expression is read as both.
